@@ -46,4 +46,23 @@ theorem load_valid_reaches_visitor (σ : Registry.Reg CT.CExpr) (cls : Registry.
   have ht' : parseAll AbnfGen.metaG f src 0 = .ok t src.length := ht
   exact ⟨t, ht', by simp [loadIn, ht']⟩
 
+private def isParseError : CT.CRes → Bool
+  | .parseError => true
+  | _ => false
+
+private theorem isParseError_eq {r : CT.CRes} (h : isParseError r = true) : r = .parseError := by
+  cases r <;> simp_all [isParseError]
+
+/-- non-vacuity of `create_invalid_defines_nothing`: "@" is not derivable from `rule` (hypothesis `hbad` is met) ... -/
+example : ¬ M AbnfGen.metaG (C04.srcOf [64]) (.ref 1) 0 (C04.srcOf [64]).length :=
+  ((C04.create_rejects_iff_not_derivable [64] 400 (by decide +kernel)).1).mp (isParseError_eq (by decide +kernel))
+
+/-- ... and a valid text does define a rule (the conclusion is not true of every text) -/
+example : (createIn AbnfGen.metaG 600 ⟨[], [], 0⟩ 1 [97, 32, 61, 32, 34, 98, 34]).2 = .ok ∧
+    (createIn AbnfGen.metaG 600 ⟨[], [], 0⟩ 1 [97, 32, 61, 32, 34, 98, 34]).1.map.length = 1 := by decide +kernel
+
+/-- `load_grammar`: one rule line is a rulelist; "a = \r\n" is not -/
+example : (loadIn AbnfGen.metaG 700 ⟨[], [], 0⟩ 1 [97, 32, 61, 32, 34, 98, 34, 13, 10]).2 = .ok ∧
+    (loadIn AbnfGen.metaG 700 ⟨[], [], 0⟩ 1 [97, 32, 61, 32, 13, 10]).2 = .parseError := by decide +kernel
+
 end Abnf.C12
